@@ -128,6 +128,37 @@ def one_linear(ctx: Ctx, spec, dtype):
                        "c2": c2.tolist(), "a": a, "b": b, "dtype": str(dtype), "torch_seed": seed})
 
 
+def mean_top_of_range(ctx: Ctx, dtype):
+    """Mean near the top of the dtype's range: when every entry of diag(c) J is finite and of one sign the column SUMS overflow
+    while the averages do not — the linear answer `sum_i (c_i / m) j_i` is finite, and linearity in c holds for it"""
+    from torchjd.aggregation import Mean
+    rng = ctx.rng
+    m = 3
+    n = rng.choice([1, 2, 4])
+    top = float(torch.finfo(dtype).max)
+    J = torch.tensor([[rng.uniform(0.7, 1.0) for _ in range(n)] for _ in range(m)], dtype=torch.float64)
+    sgn = rng.choice([-1.0, 1.0])
+    c1 = torch.tensor([rng.uniform(0.5, 0.9) for _ in range(m)], dtype=torch.float64) * top * sgn
+    c2 = torch.tensor([10.0 ** rng.uniform(-6, -1) for _ in range(m)], dtype=torch.float64) * top * sgn
+    a, b = 1.0, 1.0
+    mats = [(c[:, None] * J).to(dtype) for c in (c1, c2, a * c1 + b * c2)]
+    if not all(bool(torch.isfinite(M).all()) for M in mats):
+        return
+    A = Mean()
+    outs = []
+    for M in mats:
+        x = A(M)
+        ref = (M.double() / m).sum(dim=0)
+        ctx.count("mean_top_of_range", str(dtype))
+        if not bool(torch.isfinite(x).all()) or float(((x.double() - ref).abs() / ref.abs()).max()) > 8 * ulp(dtype):
+            ctx.violation(f"Mean on a finite {m}x{n} {dtype} matrix with entries up to {float(M.abs().max()):.3e} returns {x.tolist()}; the "
+                          f"average of the rows is {ref.tolist()} (finite)", {"aggregator": "Mean", "family": "top-of-range", "dtype": str(dtype),
+                                                                             "J": M.tolist()})
+            return
+        outs.append(x.double())
+    ctx.case(("mean-top", str(dtype), n, str(c1.tolist())), nontrivial=True)
+
+
 def one_upgrad(ctx: Ctx):
     rng = ctx.rng
     m = rng.choice([2, 3, 4])
@@ -153,7 +184,13 @@ def one_upgrad(ctx: Ctx):
     for reg in ladder:
         A = UPGrad(pref_vector=None if pv is None else torch.tensor([float(v) for v in pv], dtype=torch.float64).to(pd),
                    norm_eps=1e-3, reg_eps=reg)    # a visible norm_eps: mixing it up with reg_eps changes the ladder
-        xs = [A((c[:, None] * Jt)) for c in (c1, c2, a * c1 + b * c2)]
+        try:
+            xs = [A((c[:, None] * Jt)) for c in (c1, c2, a * c1 + b * c2)]
+        except Exception as e:  # noqa: BLE001
+            ctx.violation(f"UPGrad(reg_eps={reg}) raised {type(e).__name__}: {str(e)[:150]} on a finite scaled matrix",
+                          {"aggregator": "UPGrad", "pref": str(pv), "J": [[str(v) for v in r] for r in J], "c1": c1.tolist(),
+                           "c2": c2.tolist(), "a": a, "b": b, "reg_eps": reg})
+            return
         Jc = (a * c1 + b * c2)[:, None] * Jt
         s = float(torch.linalg.svdvals(Jc)[0])
         w = A.weighting(Jc)
@@ -181,7 +218,13 @@ def one_upgrad(ctx: Ctx):
         for reg in ladder:
             A = UPGrad(pref_vector=None if pv is None else torch.tensor([float(v) for v in pv], dtype=torch.float64),
                        norm_eps=1e-3, reg_eps=reg)
-            x0, x1, x2 = [A((c[:, None] * Jt)) for c in (c1, c2, a * c1 + b * c2)]
+            try:
+                x0, x1, x2 = [A((c[:, None] * Jt)) for c in (c1, c2, a * c1 + b * c2)]
+            except Exception as e:  # noqa: BLE001
+                ctx.violation(f"UPGrad(reg_eps={reg}) raised {type(e).__name__}: {str(e)[:150]} on a finite scaled matrix",
+                              {"aggregator": "UPGrad", "pref": str(pv), "J": [[str(v) for v in r] for r in J], "c1": c1.tolist(),
+                               "c2": c2.tolist(), "a": a, "b": b, "reg_eps": reg})
+                return
             d2 = float(((x2 - (a * x0 + b * x1)) ** 2).sum())
             bound = 3 * m * reg * (svs[0] ** 2 * S + a * a * svs[1] ** 2 * S1 + b * b * svs[2] ** 2 * S2)
             floor = (1e-6 * max(float(x2.abs().max()), 1e-300)) ** 2
@@ -219,6 +262,8 @@ def main(ctx: Ctx):
         for spec in cat:
             one_linear(ctx, spec, torch.float64 if i % 3 else torch.float32)
         one_upgrad(ctx)
+        if i % 4 == 0:
+            mean_top_of_range(ctx, torch.float32 if i % 8 == 0 else torch.float64)
     return ctx.finish(
         rule="triples (c1, c2, a c1 + b c2) of positive scalings (entries over 6 orders of magnitude, a, b in [0.1,10]) "
              "on integer / well-conditioned rational matrices for Mean, Sum, Constant (signed weights), ConFIG, PCGrad and "
